@@ -12,7 +12,7 @@ def run(ctx):
         RG.gate_presence(ctx, "R03.a", gates, ["jaccard", "length", "damlev"])
         RG.check_worst(ctx, "R03.a", "C03", gates, ["jaccard"])
         RG.check_worst(ctx, "R03.b", "C03", gates, ["length", "damlev"])
-        RG.shape_length(ctx, "R03.b", gates)
+        RG.shape_length(ctx, "R03.b", gates, clip_rule="R03.f")
     RT.gram_iter_width(ctx, "R03.c")
     RT.shared_generator(ctx, "R03.d")
     RT.grams_from_whole_words(ctx, "R03.d")
